@@ -9,6 +9,7 @@ import (
 	"fmt"
 	"sort"
 	"strings"
+	"sync"
 	"time"
 
 	"github.com/zeromicro/go-zero/core/discov/internal"
@@ -34,6 +35,7 @@ type VerifResHook func(hosts, key string) (vals func() []string, pubs func() [][
 type verifClSub struct {
 	w     int
 	mode  string
+	hook  func()
 	c     *container
 	rec   *internal.VerifRecorder
 	sub   *Subscriber
@@ -93,6 +95,87 @@ func VerifRunCluster(cs VerifClusterCase, hook VerifResHook) (res map[string]any
 		internal.VerifDropEtcd(hosts...)
 	}()
 
+	var mu sync.Mutex
+	var fired []any
+	var armed []*verifClSub
+	fire := func(s *verifClSub) {
+		mu.Lock()
+		h := s.hook
+		mu.Unlock()
+		if h != nil {
+			h()
+		}
+	}
+	var doSub func(sid, w int, mode string, excl bool) string
+	doSub = func(sid, w int, mode string, excl bool) string {
+		wk := cs.Watchers[w]
+		s := &verifClSub{w: w, mode: mode}
+		switch mode {
+		case "rec":
+			s.c = newContainer(excl)
+			s.c.addListener(func() { s.notes = append(s.notes, verifClSorted(s.c.getValues())) })
+			s.rec = &internal.VerifRecorder{Fwd: s.c, Hook: func() { fire(s) }}
+			if err := internal.GetRegistry().Monitor(eps(), wk.Key, wk.Exact, s.rec); err != nil {
+				return err.Error()
+			}
+			s.vals = s.c.getValues
+			s.close = func() { internal.GetRegistry().Unmonitor(eps(), wk.Key, wk.Exact, s.rec) }
+		case "api":
+			var opts []SubOption
+			if excl {
+				opts = append(opts, Exclusive())
+			}
+			if wk.Exact {
+				opts = append(opts, WithExactMatch())
+			}
+			sub, err := NewSubscriber(eps(), wk.Key, opts...)
+			if err != nil {
+				return err.Error()
+			}
+			s.sub = sub
+			sub.AddListener(func() {
+				s.notes = append(s.notes, verifClSorted(sub.Values()))
+				fire(s)
+			})
+			s.vals = sub.Values
+			s.close = sub.Close
+		case "res":
+			vals, pubs, closefn, err := hook(strings.Join(eps(), ","), wk.Key)
+			if err != nil {
+				return err.Error()
+			}
+			s.vals, s.pubs, s.close = vals, pubs, closefn
+		default:
+			panic("bad sub mode " + mode)
+		}
+		mu.Lock()
+		subs[sid] = s
+		order = append(order, sid)
+		nlist[w]++
+		mu.Unlock()
+		return ""
+	}
+	doUnsub := func(sid int) string {
+		mu.Lock()
+		s := subs[sid]
+		mu.Unlock()
+		if s == nil {
+			return "unknown sid"
+		}
+		s.close()
+		mu.Lock()
+		delete(subs, sid)
+		nlist[s.w]--
+		for i, x := range order {
+			if x == sid {
+				order = append(order[:i], order[i+1:]...)
+				break
+			}
+		}
+		mu.Unlock()
+		return ""
+	}
+
 	for _, raw := range cs.Ops {
 		var parts []json.RawMessage
 		if err := json.Unmarshal(raw, &parts); err != nil || len(parts) == 0 {
@@ -138,64 +221,53 @@ func VerifRunCluster(cs VerifClusterCase, hook VerifResHook) (res map[string]any
 			delete(spies, w)
 			nlist[w]--
 		case "sub":
-			sid, w, mode, excl := geti(1), geti(2), gets(3), getb(4)
 			flip = len(parts) > 5 && getb(5) // endpoints given in the other order: the same cluster
-			wk := cs.Watchers[w]
-			s := &verifClSub{w: w, mode: mode}
-			switch mode {
-			case "rec":
-				s.c = newContainer(excl)
-				s.c.addListener(func() { s.notes = append(s.notes, verifClSorted(s.c.getValues())) })
-				s.rec = &internal.VerifRecorder{Fwd: s.c}
-				if err := internal.GetRegistry().Monitor(eps(), wk.Key, wk.Exact, s.rec); err != nil {
-					errs = err.Error()
-				}
-				s.vals = s.c.getValues
-				s.close = func() { internal.GetRegistry().Unmonitor(eps(), wk.Key, wk.Exact, s.rec) }
-			case "api":
-				var opts []SubOption
-				if excl {
-					opts = append(opts, Exclusive())
-				}
-				if wk.Exact {
-					opts = append(opts, WithExactMatch())
-				}
-				sub, err := NewSubscriber(eps(), wk.Key, opts...)
-				if err != nil {
-					errs = err.Error()
-					break
-				}
-				s.sub = sub
-				sub.AddListener(func() { s.notes = append(s.notes, verifClSorted(sub.Values())) })
-				s.vals = sub.Values
-				s.close = sub.Close
-			case "res":
-				vals, pubs, closefn, err := hook(strings.Join(eps(), ","), wk.Key)
-				if err != nil {
-					errs = err.Error()
-					break
-				}
-				s.vals, s.pubs, s.close = vals, pubs, closefn
-			default:
-				panic("bad sub mode " + mode)
-			}
-			if errs == "" {
-				subs[sid] = s
-				order = append(order, sid)
-				nlist[w]++
-			}
+			errs = doSub(geti(1), geti(2), gets(3), getb(4))
 		case "unsub":
-			sid := geti(1)
-			s := subs[sid]
-			s.close()
-			delete(subs, sid)
-			nlist[s.w]--
-			for i, x := range order {
-				if x == sid {
-					order = append(order[:i], order[i+1:]...)
-					break
-				}
+			errs = doUnsub(geti(1))
+		case "hook":
+			// ["hook", trigger, "unsub", target, how] / ["hook", trigger, "sub", sid, mode, excl, how]:
+			// the next time the trigger subscriber is called back DURING THIS STEP (the watcher is in the middle of
+			// dispatching a watch event or a reload diff to its listeners), close subscriber `target` / create a
+			// subscriber on the same watcher - how = "in": re-entrantly from inside the callback, "out": from
+			// another goroutine while the callback is held.  One shot; disarmed at the end of the next step.
+			trig, act := subs[geti(1)], gets(2)
+			if trig == nil {
+				errs = "unknown sid"
+				break
 			}
+			var action func()
+			var how string
+			rec := map[string]any{"trig": geti(1), "act": act}
+			if act == "unsub" {
+				target := geti(3)
+				how = gets(4)
+				rec["sid"] = target
+				action = func() { doUnsub(target) }
+			} else {
+				sid, mode, excl := geti(3), gets(4), getb(5)
+				how = gets(6)
+				rec["sid"] = sid
+				w := trig.w
+				action = func() { doSub(sid, w, mode, excl) }
+			}
+			trig.hook = func() {
+				trig.hook = nil
+				if how == "out" {
+					done := make(chan struct{})
+					go func() {
+						defer close(done)
+						action()
+					}()
+					<-done
+				} else {
+					action()
+				}
+				mu.Lock()
+				fired = append(fired, rec)
+				mu.Unlock()
+			}
+			armed = append(armed, trig)
 		case "pub":
 			// a registration made by the real Publisher: NewPublisher(...).KeepAlive() -> Grant, Put key/<id or lease>
 			pid, key, val, id := geti(1), gets(2), gets(3), geti(4)
@@ -283,6 +355,22 @@ func VerifRunCluster(cs VerifClusterCase, hook VerifResHook) (res map[string]any
 		}
 		stuck := !etcd.Quiesce(expect, wait)
 		everStuck = everStuck || stuck
+		// a hook lives for exactly one step after it was armed; if that step made no call to the trigger, the
+		// membership change is made now (outside any dispatch), so that the case means the same either way
+		if name != "hook" && len(armed) > 0 {
+			for _, s := range armed {
+				mu.Lock()
+				h := s.hook
+				mu.Unlock()
+				if h != nil {
+					h()
+				}
+			}
+			armed = nil
+			if !etcd.Quiesce(expect, wait) {
+				stuck, everStuck = true, true
+			}
+		}
 		sobs := map[string]any{}
 		for _, sid := range order {
 			s := subs[sid]
@@ -306,7 +394,14 @@ func VerifRunCluster(cs VerifClusterCase, hook VerifResHook) (res map[string]any
 			}
 			sobs[fmt.Sprint(sid)] = o
 		}
-		steps = append(steps, map[string]any{"log": etcd.TakeLog(), "stuck": stuck, "paused": paused, "err": errs,
+		mu.Lock()
+		f := fired
+		fired = nil
+		if f == nil {
+			f = []any{}
+		}
+		mu.Unlock()
+		steps = append(steps, map[string]any{"fired": f, "log": etcd.TakeLog(), "stuck": stuck, "paused": paused, "err": errs,
 			"rev": etcd.Rev(), "live": etcd.Live(), "state": internal.VerifClusterState(hosts...), "subs": sobs})
 	}
 	return map[string]any{"id": cs.ID, "steps": steps}
